@@ -506,6 +506,17 @@ func (s *Stage) Recover() {
 				oldest = info.ModTime()
 			}
 			base := strings.TrimSuffix(path, compExt)
+			if _, err = os.Stat(base + waitExt); err == nil {
+				// A validated file waiting for its predecessor must still be
+				// the version the companion describes.  If a newer version was
+				// announced in the meantime the companion was rewritten for it
+				// and the waiting file is a superseded version: drop it rather
+				// than deliver it under the new version's hash.
+				if hash, hashErr := fileutil.FileMD5(base + waitExt); hashErr == nil && hash != cmp.Hash {
+					s.logInfo("Removing superseded waiting file:", cmp.Name)
+					os.Remove(base + waitExt)
+				}
+			}
 			if _, err = os.Stat(base + waitExt); !os.IsNotExist(err) {
 				// .wait
 				s.logDebug("Found ready to finalize:", cmp.Name)
